@@ -12,6 +12,7 @@ from __future__ import annotations
 
 import ast
 
+from pv.q import text as qtext
 from pv.model import AnalysisError, walk_no_nested, params, UNKNOWN
 
 CTX = "passlib.context"
@@ -82,7 +83,7 @@ def rule_a(model, rep):
     for st in tail:
         stmts = [st] if not isinstance(st, ast.If) else st.body + st.orelse
         for s2 in stmts:
-            t = ast.unparse(s2)
+            t = qtext(s2)
             rep.check(t.startswith(allowed_prefix), R, site("CryptContext.load"), t[:90],
                       "after the commit point only plain rebinding statements that cannot raise",
                       witness="an exception after `self._config = config` leaves the new config installed with the old bound shortcuts")
@@ -97,26 +98,26 @@ def rule_a(model, rep):
     # the strip-kwds switch is set on both branches
     last = tail[-1] if tail else None
     ok = isinstance(last, ast.If) and ast.unparse(last.test) == f"{cfg}.context_kwds" and \
-        any("_strip_unused_context_kwds" in ast.unparse(x) for x in last.body) and any("_strip_unused_context_kwds" in ast.unparse(x) for x in last.orelse)
+        any(qtext(x).loose("_strip_unused_context_kwds") for x in last.body) and any(qtext(x).loose("_strip_unused_context_kwds") for x in last.orelse)
     rep.check(ok, R, site("CryptContext.load"), ast.unparse(last)[:160] if last is not None else "<none>",
               "the per-instance `_strip_unused_context_kwds` override is cleared when the new config has context keywords and set to None when it has none",
               witness="a context that once had no contextual keywords keeps the None override after loading a config with e.g. postgres_md5: "
                       "hash(..., user=...) on another scheme raises TypeError")
     if ok:
-        rep.check("self.__dict__.pop('_strip_unused_context_kwds', None)" in ast.unparse(last.body[0]), R, site("CryptContext.load"), ast.unparse(last.body[0]),
+        rep.check("self.__dict__.pop('_strip_unused_context_kwds', None)" in qtext(last.body[0]), R, site("CryptContext.load"), ast.unparse(last.body[0]),
                   "re-enable = remove the instance attribute with pop(..., None) (cannot raise)")
     # _CryptConfig(source) gets the merged dict, merge copies resolved handlers
     upd = [s for s in body[:idx] if isinstance(s, ast.If) and ast.unparse(s.test).startswith("update and")]
     if len(upd) != 1:
         rep.undecided(R, site("CryptContext.load"), "update-merge block not found")
     else:
-        t = ast.unparse(upd[0])
+        t = qtext(upd[0])
         rep.check("source = dict(self._config.iter_config(resolve=True))" in t and "source.update(tmp)" in t, R, site("CryptContext.load"),
                   "source = dict(self._config.iter_config(resolve=True)); source.update(tmp)",
                   "update() overlays the given keys onto a fresh dict built from the current config with handler *objects* (resolve=True)",
                   witness="update(x=...) on a context holding a customised or unregistered hasher silently swaps it for the registry's hasher of that name (or raises KeyError)")
         rep.check("if not source:\n        return" in t, R, site("CryptContext.load"), "if not source: return", "an empty update is a no-op")
-    t = ast.unparse(fn)
+    t = qtext(fn)
     rep.check("source = dict(source._config.iter_config(resolve=True))" in t, R, site("CryptContext.load"), "dict(source._config.iter_config(resolve=True))",
               "loading from another context copies its resolved configuration",
               witness="copy() of a context with a custom hasher re-resolves it by name")
@@ -132,7 +133,7 @@ def rule_b(model, rep):
             if kind == "store" and what in LIVE:
                 rep.check(q == "CryptContext.load", R, site(q), ast.unparse(node)[:80], f"live state `{what}` is written only by CryptContext.load()",
                           witness="another method rebinds part of the live state: config and bound shortcuts disagree")
-            if kind == "dictop" and "_strip_unused_context_kwds" in ast.unparse(node):
+            if kind == "dictop" and qtext(node).loose("_strip_unused_context_kwds"):
                 rep.check(q == "CryptContext.load", R, site(q), ast.unparse(node)[:80], "instance override removed only by load()")
     # entry points reach state through load()
     for q, want in (("CryptContext.update", ["self.load(args[0], update=True)", "self.load(kwds, update=True)"]),
@@ -146,16 +147,16 @@ def rule_b(model, rep):
         rep.check(all(w in calls for w in want), R, site(q), "; ".join(calls), f"{q.split('.')[-1]}() changes state only through {want}",
                   witness="an entry point bypasses load()'s commit discipline")
     fn = model.func(CTX, "CryptContext.copy")
-    rep.check("other = CryptContext(_autoload=False)" in ast.unparse(fn), R, site("CryptContext.copy"), "other = CryptContext(_autoload=False)", "copy() builds a new object")
+    rep.check("other = CryptContext(_autoload=False)" in qtext(fn), R, site("CryptContext.copy"), "other = CryptContext(_autoload=False)", "copy() builds a new object")
     fn = model.func(CTX, "CryptContext._reset_dummy_verify")
-    rep.check("type(self)._dummy_hash.clear_cache(self)" in ast.unparse(fn), R, site("CryptContext._reset_dummy_verify"), "clear_cache(self)", "dummy hash cache is per instance")
+    rep.check("type(self)._dummy_hash.clear_cache(self)" in qtext(fn), R, site("CryptContext._reset_dummy_verify"), "clear_cache(self)", "dummy hash cache is per instance")
     rep.minimum(R, 10)
 
 
 def rule_c(model, rep):
     R = "C10.c-no-shared-mutation"
     fn = model.func(CTX, "_CryptConfig._create_record")
-    t = ast.unparse(fn)
+    t = qtext(fn)
     rep.check("subcls = handler.using(relaxed=True, **settings)" in t, R, site("_CryptConfig._create_record"), "subcls = handler.using(relaxed=True, **settings)",
               "records are fresh subclasses made by using()")
     stores = [ast.unparse(n.targets[0]) for n in walk_no_nested(fn) if isinstance(n, ast.Assign) and isinstance(n.targets[0], ast.Attribute)]
@@ -163,7 +164,7 @@ def rule_c(model, rep):
               witness="building a context marks the *shared* handler class as deprecated")
     rep.check("assert subcls is not handler" in t, R, site("_CryptConfig._create_record"), "assert subcls is not handler", "sanity check kept")
     fn = model.func(CTX, "_CryptConfig.iter_config")
-    t = ast.unparse(fn)
+    t = qtext(fn)
     rep.check(any(isinstance(n, ast.If) and ast.unparse(n.test) == "isinstance(value, list)" and [ast.unparse(x) for x in n.body] == ["value = list(value)"]
                   for n in walk_no_nested(fn)), R, site("_CryptConfig.iter_config"), "value = list(value)",
               "list-valued options are copied on export", witness="mutating an exported `deprecated` list changes the live context")
@@ -193,12 +194,12 @@ def rule_c(model, rep):
 def rule_d(model, rep):
     R = "C10.d-key-value-codecs"
     fn = model.func(CTX, "CryptContext._render_config_key")
-    t = ast.unparse(fn)
+    t = qtext(fn)
     rep.check("return '{}__{}__{}'.format(cat, scheme or 'context', option)" in t, R, site("CryptContext._render_config_key"), "cat__scheme|context__option",
               "category keys render as cat__scheme__option with 'context' standing for no scheme")
     rep.check("return f'{scheme}__{option}'" in t and t.rstrip().endswith("return option"), R, site("CryptContext._render_config_key"), "scheme__option / option", "two- and one-part keys")
     fn = model.func(CTX, "CryptContext._parse_config_key")
-    t = ast.unparse(fn)
+    t = qtext(fn)
     facts = ["parts = ckey.replace('.', '__').split('__')", "cat, scheme, key = (None, None, parts[0])", "scheme, key = parts", "cat, scheme, key = parts",
              "if cat == 'default':\n        cat = None", "if scheme == 'context':\n        scheme = None", "return (cat, scheme, key)"]
     for f in facts:
@@ -206,21 +207,21 @@ def rule_d(model, rep):
                   witness="an exported key is re-imported under another category/scheme")
     # value rendering
     fn = model.func(CTX, "CryptContext._render_ini_value")
-    t = ast.unparse(fn)
+    t = qtext(fn)
     rep.check("value = ', '.join(value)" in t, R, site("CryptContext._render_ini_value"), "', '.join(value)", "lists are comma-joined (splitcomma on import)")
     rep.check("return value.replace('%', '%%')" in t, R, site("CryptContext._render_ini_value"), "percent escaped", "percent signs are escaped for ConfigParser")
     # floats: lossless
-    fl = [n for n in walk_no_nested(fn) if isinstance(n, ast.If) and "isinstance(value, float)" in ast.unparse(n.test)]
+    fl = [n for n in walk_no_nested(fn) if isinstance(n, ast.If) and qtext(n.test).loose("isinstance(value, float)")]
     if len(fl) != 1:
         rep.undecided(R, site("CryptContext._render_ini_value"), "float branch not found")
     else:
         asg = [x for x in fl[0].body if isinstance(x, ast.Assign)]
-        txt = ast.unparse(asg[0].value) if asg else ""
-        lossless = ("repr(value)" in txt or "str(value)" in txt or "float.__repr__" in txt) and ":." not in txt and "%." not in txt and "round(" not in txt \
+        txt = qtext(asg[0].value) if asg else ""
+        lossless = (txt.loose("repr(value)") or txt.loose("str(value)") or txt.loose("float.__repr__")) and ":." not in txt and "%." not in txt and "round(" not in txt \
             and ".rstrip('.')" not in txt
         rep.check(lossless, R, site("CryptContext._render_ini_value"), txt, "a float vary_rounds is rendered with a text that parses back to the same float (and stays a float)",
                   witness="vary_rounds=0.125 is exported as 0.12 (or 1.0 as '1' -> re-imported as the integer 1): the re-imported context differs")
-        rep.check("str(value)" in ast.unparse(fl[0].orelse[0]) if fl[0].orelse else False, R, site("CryptContext._render_ini_value"), "else: str(value)", "other numbers via str()")
+        rep.check("str(value)" in qtext(fl[0].orelse[0]) if fl[0].orelse else False, R, site("CryptContext._render_ini_value"), "else: str(value)", "other numbers via str()")
     # coercers
     co = model.fold(model.unit(CTX), ast.Name(id="_coerce_scheme_options", ctx=ast.Load()))
     u = model.unit(CTX)
@@ -229,18 +230,18 @@ def rule_d(model, rep):
     rep.check(set(keys) >= {"min_rounds", "max_rounds", "default_rounds", "vary_rounds", "salt_size"}, R, site("_coerce_scheme_options"), str(keys),
               "string values of the numeric options are coerced on import")
     fn = model.func(CTX, "_coerce_vary_rounds")
-    t = ast.unparse(fn)
+    t = qtext(fn)
     rep.check("if value.endswith('%'):\n        return float(value.rstrip('%')) * 0.01" in t and "return int(value)" in t and "return float(value)" in t, R, site("_coerce_vary_rounds"),
               "percent / int / float", "vary_rounds text: percent -> fraction, integer text -> int, else float")
     # to_dict / to_string go through iter_config
     fn = model.func(CTX, "CryptContext.to_dict")
-    rep.check("self._config.iter_config(resolve)" in ast.unparse(fn) and "render_key(key), value" in ast.unparse(fn), R, site("CryptContext.to_dict"), "iter_config + render_key", "dict export renders every config item")
+    rep.check("self._config.iter_config(resolve)" in qtext(fn) and "render_key(key), value" in qtext(fn), R, site("CryptContext.to_dict"), "iter_config + render_key", "dict export renders every config item")
     fn = model.func(CTX, "CryptContext._write_to_parser")
-    t = ast.unparse(fn)
+    t = qtext(fn)
     rep.check("for k, v in self._config.iter_config():" in t and "v = render_value(k, v)" in t and "k = render_key(k)" in t and "parser.set(section, k, v)" in t, R,
               site("CryptContext._write_to_parser"), "render value then key", "INI export renders value with the *unrendered* key tuple, then the key")
     fn = model.func(CTX, "CryptContext._parse_ini_stream")
-    rep.check("return dict(p.items(section))" in ast.unparse(fn), R, site("CryptContext._parse_ini_stream"), "dict(p.items(section))", "INI import reads the section")
+    rep.check("return dict(p.items(section))" in qtext(fn), R, site("CryptContext._parse_ini_stream"), "dict(p.items(section))", "INI import reads the section")
 
 
 def run(model, rep):
